@@ -357,12 +357,44 @@ func ruleIntentNormal(c *Ctx, r *Report) {
 			fps := CallsIn(info, rs.Body, P("gnmidiff")+".fullPathStr")
 			okPath := len(fps) == 1 && len(fps[0].Args) == 2 && ObjOf(info, fps[0].Args[0]) == prefixObj && prefixObj != nil && errTestedAfter(c, f, rs.Body, fps[0])
 			var pathObj types.Object
+			helperRecordsDelete := false
+			var elemArg ast.Expr
 			if okPath {
 				if as, ok := c.parentMap(f.File)[fps[0]].(*ast.AssignStmt); ok {
 					pathObj = ObjOf(info, as.Lhs[0])
 				}
+				elemArg = fps[0].Args[1]
+			} else if len(fps) == 0 {
+				// an extracted helper that resolves the path (and possibly records the delete):
+				// summarised from its own body, relative to its parameters.
+				ast.Inspect(rs.Body, func(m ast.Node) bool {
+					call, ok := m.(*ast.CallExpr)
+					if !ok || okPath {
+						return true
+					}
+					h := c.funcOfCallee(Callee(info, call))
+					if h == nil {
+						return true
+					}
+					sum := intentPathHelper(c, h)
+					if sum == nil || sum.prefix >= len(call.Args) || sum.elem >= len(call.Args) {
+						return true
+					}
+					if ObjOf(info, call.Args[sum.prefix]) != prefixObj || prefixObj == nil || !(isIfInit(c, f, call) || errTestedAfter(c, f, rs.Body, call)) {
+						return true
+					}
+					okPath = true
+					elemArg = call.Args[sum.elem]
+					helperRecordsDelete = sum.recordsDelete
+					if as, ok := c.parentMap(f.File)[call].(*ast.AssignStmt); ok && sum.result < len(as.Lhs) {
+						pathObj = ObjOf(info, as.Lhs[sum.result])
+					}
+					return true
+				})
+			}
+			if okPath {
 				// the path argument is the element's own path.
-				arg := ast.Unparen(fps[0].Args[1])
+				arg := ast.Unparen(elemArg)
 				if fld == "Delete" {
 					okPath = rs.Value != nil && ObjOf(info, arg) == ObjOf(info, rs.Value)
 				} else if s2, ok := arg.(*ast.SelectorExpr); ok {
@@ -386,6 +418,9 @@ func ruleIntentNormal(c *Ctx, r *Report) {
 				}
 				return true
 			})
+			if helperRecordsDelete {
+				setsDelete = true
+			}
 			for _, pu := range CallsIn(info, rs.Body, P("gnmidiff")+".setRequestIntent.populateUpdate") {
 				if len(pu.Args) == 4 && ObjOf(info, pu.Args[0]) == pathObj && paramIndex(f, ObjOf(info, pu.Args[2])) == 1 && (isIfInit(c, f, pu) || errTestedAfter(c, f, rs.Body, pu)) {
 					populates = true
@@ -466,22 +501,73 @@ func ruleIntentNormal(c *Ctx, r *Report) {
 	}
 	if g := c.MustFunc(r, "gnmidiff", "populateUpdateNoSchema"); g != nil {
 		gi := g.Info()
-		ok := false
+		pm := c.parentMap(g.File)
+		listOf := func(n ast.Node) (ast.Stmt, []ast.Stmt) {
+			for cur := n; cur != nil; cur = pm[cur] {
+				if st, isStmt := cur.(ast.Stmt); isStmt {
+					switch p := pm[cur].(type) {
+					case *ast.BlockStmt:
+						return st, p.List
+					case *ast.CaseClause:
+						return st, p.Body
+					}
+				}
+			}
+			return nil, nil
+		}
+		// D: delete(intent.Deletes, path); W: the write of the leaf at path itself;
+		// L: writes below path (path+subpath) for a non-leaf value.
+		var D, W, L *ast.CallExpr
 		ast.Inspect(g.Decl.Body, func(m ast.Node) bool {
-			if call, isCall := m.(*ast.CallExpr); isCall {
-				if id, isID := call.Fun.(*ast.Ident); isID && id.Name == "delete" && len(call.Args) == 2 && paramIndex(g, ObjOf(gi, call.Args[1])) == 1 {
-					for _, ft := range c.FactsAt(g, call, false) {
-						if ft.Kind == "cond" && ft.Pos {
-							if id2, isID2 := ast.Unparen(ft.Cond).(*ast.Ident); isID2 && id2.Name != "" {
-								ok = true
+			call, isCall := m.(*ast.CallExpr)
+			if !isCall {
+				return true
+			}
+			if id, isID := call.Fun.(*ast.Ident); isID && id.Name == "delete" && len(call.Args) == 2 && paramIndex(g, ObjOf(gi, call.Args[1])) == 1 {
+				D = call
+			}
+			if IsCall(gi, call, P("gnmidiff")+".setRequestIntent.writeUpdate") && len(call.Args) == 3 {
+				if paramIndex(g, ObjOf(gi, call.Args[0])) == 1 {
+					W = call
+				} else {
+					L = call
+				}
+			}
+			return true
+		})
+		ok := false
+		if D != nil && W != nil {
+			ds, dl := listOf(D)
+			ws, wl := listOf(W)
+			sameList := len(dl) > 0 && len(wl) > 0 && dl[0] == wl[0] && len(dl) == len(wl) && ds.Pos() < ws.Pos()
+			exclusive := L == nil
+			if L != nil {
+				_, ll := listOf(L)
+				// the non-leaf writes sit in a loop; take the list that contains that loop.
+				if lp, isLoop := c.EnclosingLoop(g, L).(*ast.RangeStmt); isLoop {
+					_, ll = listOf(lp)
+				}
+				if terminates(gi, ll) {
+					exclusive = true // the non-leaf branch leaves the function before the delete
+				}
+				for _, ft := range c.FactsAt(g, D, false) {
+					if ft.Kind != "cond" || !ft.Pos {
+						continue
+					}
+					if id2, isID2 := ast.Unparen(ft.Cond).(*ast.Ident); isID2 {
+						for _, st := range ll {
+							if as, isAs := st.(*ast.AssignStmt); isAs && len(as.Lhs) == 1 && len(as.Rhs) == 1 && ObjOf(gi, as.Lhs[0]) == gi.ObjectOf(id2) {
+								if v, isConst := ConstOf(gi, as.Rhs[0]); isConst && v == "false" {
+									exclusive = true // the non-leaf branch clears the flag the delete is conditional on
+								}
 							}
 						}
 					}
 				}
 			}
-			return true
-		})
-		r.Check(ok, "gnmidiff.populateUpdateNoSchema:leaf-replace", c.Pos(g.Decl.Pos()), "delete(intent.Deletes, path) when the value is a leaf", "without a schema, a leaf replace no longer drops its delete")
+			ok = sameList && exclusive
+		}
+		r.Check(ok, "gnmidiff.populateUpdateNoSchema:leaf-replace", c.Pos(g.Decl.Pos()), "delete(intent.Deletes, path) runs exactly when the leaf at path itself is written (never on the non-leaf branch)", "without a schema, a leaf replace no longer drops its delete exactly when the value is a leaf (the delete and the write of the leaf at path are not paired, or the non-leaf branch also reaches the delete)")
 	}
 	// leaf value forms.
 	if g := c.MustFunc(r, "gnmidiff", "protoLeafToJSON"); g != nil {
@@ -648,42 +734,69 @@ func ruleSetToNotifs(c *Ctx, r *Report) {
 			return true
 		}
 		facts := c.FactsAt(f, as, false)
-		hasOK, notOK, neq, eqOrNone := false, false, false, true
-		extraConj := 0
-		for _, ft := range facts {
-			if ft.Kind != "cond" {
-				continue
-			}
-			if ObjOf(info, ft.Cond) == okObj && okObj != nil {
-				if ft.Pos {
-					hasOK = true
-				} else {
-					notOK = true
+		// Truth-table reading of the guard: atoms P (the leaf is present in the notifications)
+		// and E (reflect.DeepEqual of the two values). The store must be reached for exactly
+		// the assignments its class stands for, whatever mix of if/else, switch and early
+		// exits expresses it; any other atom in the guard narrows the class and fails.
+		var eval func(e ast.Expr, P, E bool) (bool, bool)
+		eval = func(e ast.Expr, P, E bool) (bool, bool) {
+			switch x := ast.Unparen(e).(type) {
+			case *ast.Ident:
+				if okObj != nil && info.ObjectOf(x) == okObj {
+					return P, true
 				}
-			}
-			if call, isCall := ast.Unparen(ft.Cond).(*ast.CallExpr); isCall && IsCall(info, call, "reflect.DeepEqual") && len(call.Args) == 2 {
-				o1, o2 := ObjOf(info, call.Args[0]), ObjOf(info, call.Args[1])
-				if !ft.Pos && ((o1 == vA && o2 == vB) || (o1 == vB && o2 == vA)) && vA != nil && vB != nil {
-					neq = true
-					continue
+			case *ast.UnaryExpr:
+				if x.Op == token.NOT {
+					v, k := eval(x.X, P, E)
+					return !v, k
 				}
-				_ = eqOrNone
-			}
-			// any further positive conjunct of the arm's own condition narrows the classification.
-			if ft.Pos && !(ObjOf(info, ft.Cond) == okObj) {
-				if cl := c.enclosingCase(f, as); cl != nil && ft.Cond.Pos() >= cl.Pos() && ft.Cond.End() <= cl.End() {
-					extraConj++
+			case *ast.BinaryExpr:
+				if x.Op == token.LAND || x.Op == token.LOR {
+					a, ka := eval(x.X, P, E)
+					b, kb := eval(x.Y, P, E)
+					if x.Op == token.LAND {
+						return a && b, ka && kb
+					}
+					return a || b, ka && kb
 				}
-			}
-			if !ft.Pos && !(ObjOf(info, ft.Cond) == okObj) {
-				if cl := c.enclosingCase(f, as); cl != nil && ft.Cond.Pos() >= cl.Pos() && ft.Cond.End() <= cl.End() {
-					if call, isCall := ast.Unparen(ft.Cond).(*ast.CallExpr); !isCall || !IsCall(info, call, "reflect.DeepEqual") {
-						extraConj++
-					} else if o1, o2 := ObjOf(info, call.Args[0]), ObjOf(info, call.Args[1]); !((o1 == vA && o2 == vB) || (o1 == vB && o2 == vA)) {
-						extraConj++
+			case *ast.CallExpr:
+				if IsCall(info, x, "reflect.DeepEqual") && len(x.Args) == 2 && vA != nil && vB != nil {
+					o1, o2 := ObjOf(info, x.Args[0]), ObjOf(info, x.Args[1])
+					if (o1 == vA && o2 == vB) || (o1 == vB && o2 == vA) {
+						return E, true
 					}
 				}
 			}
+			return false, false
+		}
+		reached := func(P, E bool) (bool, bool) {
+			for _, ft := range facts {
+				if ft.Kind != "cond" || ft.Cond.Pos() < loop.Body.Pos() || ft.Cond.Pos() > loop.Body.End() {
+					if ft.Kind != "cond" && ft.Cond != nil && ft.Cond.Pos() >= loop.Body.Pos() && ft.Cond.Pos() <= loop.Body.End() {
+						return false, false // a tagged switch inside the loop: not understood
+					}
+					continue
+				}
+				v, known := eval(ft.Cond, P, E)
+				if !known {
+					return false, false
+				}
+				if v != ft.Pos {
+					return false, true
+				}
+			}
+			return true, true
+		}
+		exactly := func(spec func(P, E bool) bool) bool {
+			for _, P := range []bool{true, false} {
+				for _, E := range []bool{true, false} {
+					got, known := reached(P, E)
+					if !known || got != spec(P, E) {
+						return false
+					}
+				}
+			}
+			return true
 		}
 		switch sel.Sel.Name {
 		case "MismatchedUpdates":
@@ -702,19 +815,11 @@ func ruleSetToNotifs(c *Ctx, r *Report) {
 				}
 				sides = a && b
 			}
-			classOK["mismatched"] = hasOK && neq && sides && extraConj == 0
+			classOK["mismatched"] = sides && exactly(func(P, E bool) bool { return P && !E })
 		case "CommonUpdates":
-			// present and not (present and unequal): the tagless switch negates the earlier case.
-			negEarlier := false
-			for _, ft := range facts {
-				if ft.Kind == "cond" && !ft.Pos && len(CallsIn(info, ft.Cond, "reflect.DeepEqual")) > 0 {
-					negEarlier = true
-				}
-			}
-			classOK["common"] = hasOK && negEarlier && extraConj == 0 && ObjOf(info, as.Rhs[0]) == vA
+			classOK["common"] = ObjOf(info, as.Rhs[0]) == vA && exactly(func(P, E bool) bool { return P && E })
 		case "MissingUpdates":
-			// default arm: earlier `ok` cases negated.
-			classOK["missing"] = (notOK || !hasOK) && extraConj == 0 && ObjOf(info, as.Rhs[0]) == vA
+			classOK["missing"] = ObjOf(info, as.Rhs[0]) == vA && exactly(func(P, E bool) bool { return !P })
 		}
 		return true
 	})
@@ -766,4 +871,60 @@ func ruleSetToNotifs(c *Ctx, r *Report) {
 		return true
 	})
 	r.Check(del, "gnmidiff.DiffSetRequestToNotifications:notif-deletes-refused", c.Pos(f.Decl.Pos()), "notifications carrying deletes are an error (unsupported), never ignored", "deletes in notifications are silently ignored")
+}
+
+// intentPathSummary describes a helper of minimalSetRequestIntent relative to its parameters: it
+// computes fullPathStr(params[prefix], params[elem]) (error returned), returns that string as
+// result number `result`, and — recordsDelete — stores it as a key of a Deletes map.
+type intentPathSummary struct {
+	prefix, elem, result int
+	recordsDelete        bool
+}
+
+func intentPathHelper(c *Ctx, h *FuncInfo) *intentPathSummary {
+	info := h.Info()
+	if h.Pkg.PkgPath != P("gnmidiff") {
+		return nil
+	}
+	fps := CallsIn(info, h.Decl.Body, P("gnmidiff")+".fullPathStr")
+	if len(fps) != 1 || len(fps[0].Args) != 2 || !errTestedAfter(c, h, h.Decl.Body, fps[0]) {
+		return nil
+	}
+	sum := &intentPathSummary{prefix: paramIndex(h, ObjOf(info, fps[0].Args[0])), elem: paramIndex(h, ObjOf(info, fps[0].Args[1])), result: -1}
+	if sum.prefix < 0 || sum.elem < 0 {
+		return nil
+	}
+	var pathObj types.Object
+	if as, ok := c.parentMap(h.File)[fps[0]].(*ast.AssignStmt); ok {
+		pathObj = ObjOf(info, as.Lhs[0])
+	}
+	if pathObj == nil {
+		return nil
+	}
+	// every non-error return hands the path back at the same position.
+	for _, rs := range returnsOf(h.Decl.Body) {
+		for i, e := range rs.Results {
+			if ObjOf(info, e) == pathObj {
+				if sum.result >= 0 && sum.result != i {
+					return nil
+				}
+				sum.result = i
+			}
+		}
+	}
+	if sum.result < 0 {
+		return nil
+	}
+	ast.Inspect(h.Decl.Body, func(m ast.Node) bool {
+		if as, ok := m.(*ast.AssignStmt); ok && len(as.Lhs) == 1 {
+			if ix, ok := as.Lhs[0].(*ast.IndexExpr); ok {
+				if s2, ok := ast.Unparen(ix.X).(*ast.SelectorExpr); ok && s2.Sel.Name == "Deletes" && ObjOf(info, ix.Index) == pathObj {
+					// unconditional apart from the duplicate test and the error exit.
+					sum.recordsDelete = true
+				}
+			}
+		}
+		return true
+	})
+	return sum
 }
